@@ -1,8 +1,304 @@
-/- Driver handler of C02: protocol line (already split into tokens, without the leading "c02") -> answer. -/
+/-
+  Driver handler of C02.  Protocol (first token "c02"):
+    c02 surf <surface tree, prefix>         -> wf ; raw tokens ; rpn ; tree ; emitted python tokens ; pyParse ; toPy ; spec flags
+    c02 raw  <raw tokens>                   -> rpn ; tree ; emitted python tokens ; pyParse
+    c02 py   <python tokens>                -> pyParse
+    c02 val  <k> <addr>=<value> … <surface tree>   -> value of the tree (simple exact evaluator, `?` = not decided here)
+  Text travels as decimal code points joined by ','.  Trusted glue, exercised by every correspondence run.
+-/
 import Pycel.Model.Proto
+import Pycel.Model.Formula
 namespace Pycel.Drv.C02
+open Pycel Pycel.Formula
+
+def cps (s : List Char) : String := ",".intercalate (s.map fun c => toString c.toNat)
+
+def uncps? (body : String) : Option (List Char) :=
+  if body.isEmpty then some [] else (body.splitOn ",").mapM fun t => t.toNat?.map Char.ofNat
+
+def opName : InOp → String
+  | .colon => "colon" | .space => "space" | .comma => "comma" | .pow => "pow" | .mul => "mul" | .div => "div"
+  | .add => "add" | .sub => "sub" | .concat => "concat" | .eq => "eq" | .lt => "lt" | .gt => "gt"
+  | .le => "le" | .ge => "ge" | .ne => "ne"
+
+def opOfName? (s : String) : Option InOp := InOp.all.find? (fun o => opName o == s)
+
+def pyOpName : PyOp → String
+  | .pow => "pow" | .mul => "mul" | .div => "div" | .add => "add" | .sub => "sub" | .bitand => "bitand"
+  | .eq => "eq" | .ne => "ne" | .lt => "lt" | .gt => "gt" | .le => "le" | .ge => "ge"
+
+def pyOpAll : List PyOp := [.pow, .mul, .div, .add, .sub, .bitand, .eq, .ne, .lt, .gt, .le, .ge]
+def pyOpOfName? (s : String) : Option PyOp := pyOpAll.find? (fun o => pyOpName o == s)
+
+def rest (s : String) (n : Nat) : String := (s.drop n).toString
+
+/-! ### encoders -/
+
+def encOperand : Operand → String
+  | .number t => "N" ++ cps t
+  | .text r => "T" ++ cps r
+  | .logical b => if b then "L1" else "L0"
+  | .error e => "E" ++ e.tag
+  | .range t => "R" ++ cps t
+  | .empty => "Z"
+
+def decOperand? (s : String) : Option Operand :=
+  if s = "Z" then some .empty
+  else if s = "L1" then some (.logical true)
+  else if s = "L0" then some (.logical false)
+  else if s.startsWith "N" then (uncps? (rest s 1)).map .number
+  else if s.startsWith "T" then (uncps? (rest s 1)).map .text
+  else if s.startsWith "R" then (uncps? (rest s 1)).map .range
+  else if s.startsWith "E" then (Err.ofTag? (rest s 1)).map .error
+  else none
+
+def encRaw : RawTok → String
+  | .operand o => "o:" ++ encOperand o
+  | .funcOpen n => "f(" ++ cps n
+  | .funcClose => "f)"
+  | .arrayOpen => "{" | .arrayClose => "}" | .rowSep => "rs" | .argSep => "as"
+  | .parenOpen => "(" | .parenClose => ")"
+  | .pre => "u" | .inf op => "i" ++ opName op | .post => "%" | .wspace => "w"
+
+def decRaw? (s : String) : Option RawTok :=
+  if s.startsWith "o:" then (decOperand? (rest s 2)).map .operand
+  else if s.startsWith "f(" then (uncps? (rest s 2)).map .funcOpen
+  else if s = "f)" then some .funcClose
+  else if s = "{" then some .arrayOpen else if s = "}" then some .arrayClose
+  else if s = "rs" then some .rowSep else if s = "as" then some .argSep
+  else if s = "(" then some .parenOpen else if s = ")" then some .parenClose
+  else if s = "u" then some .pre else if s = "%" then some .post else if s = "w" then some .wspace
+  else if s.startsWith "i" then (opOfName? (rest s 1)).map .inf
+  else none
+
+def encNode : Node → String
+  | .operand o => "o:" ++ encOperand o
+  | .pre => "u" | .inf op => "i" ++ opName op | .post => "%"
+  | .func n k => s!"f{k}:" ++ cps n
+
+mutual
+def encExpr : Expr → List String
+  | .operand o => ["o:" ++ encOperand o]
+  | .neg e => "U" :: encExpr e
+  | .pct e => "%" :: encExpr e
+  | .bin op l r => ("B" ++ opName op) :: encExpr l ++ encExpr r
+  | .func n args => (s!"F{args.length}:" ++ cps n) :: encExprs args
+def encExprs : List Expr → List String
+  | [] => []
+  | e :: es => encExpr e ++ encExprs es
+end
+
+def encPyTok : PyTok → String
+  | .name s => "n" ++ cps s | .num s => "d" ++ cps s | .str b => "s" ++ cps b
+  | .op o => "o" ++ pyOpName o | .lpar => "(" | .rpar => ")" | .comma => ","
+
+def decPyTok? (s : String) : Option PyTok :=
+  if s = "(" then some .lpar else if s = ")" then some .rpar else if s = "," then some .comma
+  else if s.startsWith "n" then (uncps? (rest s 1)).map .name
+  else if s.startsWith "d" then (uncps? (rest s 1)).map .num
+  else if s.startsWith "s" then (uncps? (rest s 1)).map .str
+  else if s.startsWith "o" then (pyOpOfName? (rest s 1)).map .op
+  else none
+
+mutual
+def encPy : PyExpr → List String
+  | .name s => ["n" ++ cps s]
+  | .num s => ["d" ++ cps s]
+  | .str s => ["s" ++ cps s]
+  | .neg e => "U" :: encPy e
+  | .bin op l r => ("b" ++ pyOpName op) :: encPy l ++ encPy r
+  | .call f args => (s!"c{args.length}:" ++ cps f) :: encPys args
+  | .tuple items => s!"t{items.length}" :: encPys items
+def encPys : List PyExpr → List String
+  | [] => []
+  | e :: es => encPy e ++ encPys es
+end
+
+def sp (xs : List String) : String := " ".intercalate xs
+def optField (f : α → String) : Option α → String
+  | some x => f x
+  | none => "none"
+
+/-! ### surface tree decoder (prefix notation) -/
+
+mutual
+def decSurf : Nat → List String → Option (Surf × List String)
+  | 0, _ => none
+  | n + 1, ts =>
+    match ts with
+    | [] => none
+    | t :: r =>
+      if t = "P" then (decSurf n r).map fun (e, r) => (.paren e, r)
+      else if t = "U" then (decSurf n r).map fun (e, r) => (.neg e, r)
+      else if t = "%" then (decSurf n r).map fun (e, r) => (.pct e, r)
+      else if t.startsWith "B" then
+        (opOfName? (rest t 1)).bind fun op =>
+        (decSurf n r).bind fun (l, r) => (decSurf n r).map fun (x, r) => (.bin op l x, r)
+      else if t.startsWith "F" then
+        match (rest t 1).splitOn ":" with
+        | [k, nm] =>
+          k.toNat?.bind fun k => (uncps? nm).bind fun nm =>
+          (decSurfs n k r).map fun (args, r) => (.func nm args, r)
+        | _ => none
+      else if t.startsWith "o:" then (decOperand? (rest t 2)).map fun o => (.operand o, r)
+      else none
+def decSurfs : Nat → Nat → List String → Option (List Surf × List String)
+  | 0, _, _ => none
+  | _ + 1, 0, ts => some ([], ts)
+  | n + 1, k + 1, ts =>
+    (decSurf n ts).bind fun (e, r) => (decSurfs n k r).map fun (es, r) => (e :: es, r)
+end
+
+def decSurfAll (ts : List String) : Option Surf :=
+  match decSurf (2 * ts.length + 4) ts with
+  | some (s, []) => some s
+  | _ => none
+
+/-! ### a small exact evaluator (the operator semantics proper belong to C10; `unk` = not decided here) -/
+
+inductive V where
+  | num (q : Rat) | str (s : List Char) | bool (b : Bool) | err (e : Err) | blank | unk
+  deriving Inhabited
+
+def errOfText? (s : List Char) : Option Err := Err.all.find? (fun e => errText e == s)
+
+def natDigits (n : Nat) : List Char := (toString n).toList
+
+def numText (q : Rat) : Option (List Char) :=
+  if q.den = 1 then some (if q.num < 0 then '-' :: natDigits q.num.natAbs else natDigits q.num.natAbs) else none
+
+def ratPow (q : Rat) (n : Nat) : Rat := (List.replicate n q).foldl (· * ·) 1
+
+def arith (op : PyOp) (a b : Rat) : V :=
+  match op with
+  | .add => .num (a + b) | .sub => .num (a - b) | .mul => .num (a * b)
+  | .div => if b = 0 then .err .div0 else .num (a / b)
+  | .pow =>
+    if b.den ≠ 1 then .unk
+    else if b.num.natAbs > 40 then .unk
+    else if a = 0 ∧ b.num ≤ 0 then .unk
+    else if b.num ≥ 0 then .num (ratPow a b.num.natAbs) else .num (1 / ratPow a b.num.natAbs)
+  | .eq => .bool (a = b) | .ne => .bool (a ≠ b) | .lt => .bool (a < b) | .gt => .bool (a > b)
+  | .le => .bool (a ≤ b) | .ge => .bool (a ≥ b)
+  | .bitand => .unk
+
+def catText : V → Option (List Char)
+  | .num q => numText q
+  | .str s => some s
+  | .blank => some []
+  | .bool b => some (if b then "TRUE".toList else "FALSE".toList)
+  | _ => none
+
+def numsOf : List V → Option (List Rat)
+  | [] => some []
+  | .num q :: r => (numsOf r).map (q :: ·)
+  | _ => none
+
+def sem (env : List (List Char × V)) : Sem V where
+  num t := match numValue? t with | some q => .num q | none => .unk
+  str s := match errOfText? s with | some e => .err e | none => .str s
+  name s := if s = nmTrue then .bool true else if s = nmFalse then .bool false else if s = nmNone then .blank else .unk
+  neg v := match v with | .num q => .num (-q) | .err e => .err e | _ => .unk
+  bin op l r :=
+    match l, r with
+    | .unk, _ => .unk
+    | _, .unk => .unk
+    | .err e, _ => .err e
+    | _, .err e => .err e
+    | .num a, .num b => arith op a b
+    | l, r =>
+      if op = .bitand then
+        match catText l, catText r with
+        | some a, some b => .str (a ++ b)
+        | _, _ => .unk
+      else .unk
+  call f args :=
+    if args.any (fun v => match v with | .unk => true | _ => false) then .unk
+    else if f = "abs_".toList ∧ args.length ≠ 1 then .unk
+    else if f = nmC then
+      match args with
+      | [.str a] => (env.lookup a).getD .blank
+      | _ => .unk
+    else match args.find? (fun v => match v with | .err _ => true | _ => false) with
+      | some e => if args.any (fun v => match v with | .unk => true | _ => false) then .unk else
+                  (if f = "sum_".toList ∨ f = "max_".toList ∨ f = "min_".toList ∨ f = "abs_".toList then e else .unk)
+      | none =>
+        match numsOf args with
+        | some (q :: qs) =>
+          if f = "sum_".toList then .num ((q :: qs).foldl (· + ·) 0)
+          else if f = "max_".toList then .num (qs.foldl (fun a b => if a < b then b else a) q)
+          else if f = "min_".toList then .num (qs.foldl (fun a b => if b < a then b else a) q)
+          else if f = "abs_".toList ∧ qs.isEmpty then .num (if q < 0 then -q else q)
+          else .unk
+        | _ => .unk
+  tuple _ := .unk
+
+def encV : V → String
+  | .num q => encRat q
+  | .str s => encText s
+  | .bool b => if b then "b:1" else "b:0"
+  | .err e => "e:" ++ e.tag
+  | .blank => "n:0/1"         -- eval_func: `ret_val if ret_val not in (None, EMPTY) else 0`
+  | .unk => "?"
+
+def decV? (tok : String) : Option V :=
+  (Val.dec? tok).map fun v => match v with
+    | .num q => .num q | .str s => .str s | .bool b => .bool b | .blank => .blank | .err e => .err e
+
+def decEnv : Nat → List String → Option (List (List Char × V) × List String)
+  | 0, ts => some ([], ts)
+  | k + 1, t :: ts =>
+    match t.splitOn "=" with
+    | [a, v] => (uncps? a).bind fun a => (decV? v).bind fun v => (decEnv k ts).map fun (e, r) => ((a, v) :: e, r)
+    | _ => none
+  | _, _ => none
+
+/-! ### handlers -/
+
+def pipeline (rpn? : Option (List Node)) : List String :=
+  let ast? := rpn?.bind buildAst
+  let py? := ast?.map emit
+  let pp? := py?.bind pyParse
+  [optField (fun r => sp (r.map encNode)) rpn?,
+   optField (fun e => sp (encExpr e)) ast?,
+   optField (fun p => sp (p.map encPyTok)) py?,
+   optField (fun p => sp (encPy p)) pp?]
+
+def flag (b : Bool) : String := if b then "1" else "0"
 
 def handle : List String → String
+  | "c02" :: "surf" :: ts =>
+    match decSurfAll ts with
+    | none => "!bad-surf"
+    | some s =>
+      let raw := toks s
+      let rpn? := parseRaw raw
+      let e := erase s
+      -- internal agreement flags (the theorems say these are all 1 on well-formed input)
+      let okAmend := amend raw == atoks s
+      let okParse := rpn? == some (rpn e)
+      let okBuild := (sp <$> (encExpr <$> (buildAst (rpn e)))) == some (sp (encExpr e))
+      let okEmit := (sp <$> (encPy <$> pyParse (emit e))) == some (sp (encPy (toPy e)))
+      " ; ".intercalate (["wf:" ++ flag s.wf, sp (raw.map encRaw)] ++ pipeline rpn? ++
+        [sp (encPy (toPy e)), "th:" ++ flag okAmend ++ flag okParse ++ flag okBuild ++ flag okEmit])
+  | "c02" :: "raw" :: ts =>
+    match ts.mapM decRaw? with
+    | none => "!bad-raw"
+    | some raw => " ; ".intercalate (pipeline (parseRaw raw))
+  | "c02" :: "py" :: ts =>
+    match ts.mapM decPyTok? with
+    | none => "!bad-py"
+    | some p => optField (fun x => sp (encPy x)) (pyParse p)
+  | "c02" :: "val" :: k :: ts =>
+    match k.toNat? with
+    | none => "!bad-val"
+    | some k =>
+      match decEnv k ts with
+      | none => "!bad-env"
+      | some (env, r) =>
+        match decSurfAll r with
+        | none => "!bad-surf"
+        | some s => encV (evalExcel (sem env) (erase s))
   | _ => "!bad-op"
 
 end Pycel.Drv.C02
